@@ -192,5 +192,5 @@ pub fn build(ctx: &Ctx) -> Vec<Box<dyn Arm>> {
     ctx.rule("histories (create, then 1..10 (thorough 40) ops: plain / embedded / chunked / log-filling puts, updates, deletes, commits, close+open, vacuum) executed once in a child process under an LD_PRELOAD recorder that logs every write / pwrite / ftruncate / fsync / rename / unlink / create / copy_file_range on the memory's directory together with BEGIN/END markers around every API call; the parent rebuilds the directory after EVERY prefix of that log (process-crash model: completed syscalls persist) and opens it; oracle: Memvid::open succeeds and the frame table + content digests equal the reference state after the acknowledged calls or the one including the in-flight call (references = the same run's kill-copy + recovery after each call); non-trivial = crash strictly inside an API call with at least one call acknowledged before");
     ctx.assume("reference states come from the same recorded run (kill-copy after each call, opened with recovery), so they are correct only if uninterrupted recovery is (C01 decides that against the model)");
     let t = ctx.tier;
-    vec![arm_with("every_prefix", t.pick(16, 300), 8, t.pick(30, 80), move || case(t.pick(10, 40)), check)]
+    vec![arm_with("every_prefix", t.pick(16, 300), 8, t.pick(8, 40), move || case(t.pick(10, 40)), check)]
 }
